@@ -43,7 +43,7 @@ LEVEL_NOTE = ('Trusted: NumPy arithmetic, Hypothesis, evaluation of ODL leaf '
               'derived per case from a perturbed re-run of the reference '
               '(rounding-error propagation through the same tree).')
 DESIGN_REF = 'DESIGN.md section 5, C04'
-BUDGET = {'quick': 6000, 'thorough': 60000}
+BUDGET = {'quick': 10000, 'thorough': 80000}
 NOISE = 4.0
 TOLERANCES = {
     'value': '|got-ref|_max <= 16*delta + 64*eps(dtype)*(depth+1)*|ref|_max '
